@@ -50,6 +50,11 @@ def make_task(rng, kind):
         t["GS"] = rng.choice([d for d in (1, 2, 4) if t["R"] % d == 0])
         t["comm"] = rng.choice(["fp32", "fp32", "bf16"])
         t["comm_params"] = rng.random() < 0.4
+        if t["R"] > 1 and rng.random() < 0.4:
+            rows = list(range(t["R"]))
+            while rows == sorted(rows):
+                rng.shuffle(rows)
+            t["mesh_rows"] = rows
     return t
 
 
